@@ -435,3 +435,232 @@ func (ex *Exec) mergeValue(c *Term, a, b Value) Value {
 	abortMerge()
 	return nil
 }
+
+// ---------------------------------------------------------------------------
+// Condition merging: a short-circuit condition (a && b || c ...) is compiled into a tree of
+// blocks that only evaluate sub-conditions and branch.  When that tree has exactly two exit
+// blocks, the guards of the two exits are computed and a single decision is taken, instead
+// of one fork per sub-condition.
+
+type condRegion struct {
+	ok    bool
+	inner []*ssa.BasicBlock // topological order
+	exits []*ssa.BasicBlock
+}
+
+var condCache sync.Map // *ssa.If -> *condRegion
+
+func condRegionFor(in *ssa.If) *condRegion {
+	if v, ok := condCache.Load(in); ok {
+		return v.(*condRegion)
+	}
+	cr := &condRegion{}
+	defer condCache.Store(in, cr)
+	b := in.Block()
+	pure := func(x *ssa.BasicBlock) bool {
+		if len(x.Instrs) == 0 || len(x.Instrs) > 12 || isLoopHead(x) {
+			return false
+		}
+		if _, ok := x.Instrs[len(x.Instrs)-1].(*ssa.If); !ok {
+			return false
+		}
+		for _, ins := range x.Instrs[:len(x.Instrs)-1] {
+			switch ins.(type) {
+			case *ssa.BinOp, *ssa.UnOp, *ssa.Convert, *ssa.ChangeType, *ssa.Extract, *ssa.Field, *ssa.FieldAddr, *ssa.IndexAddr, *ssa.Index, *ssa.Lookup, *ssa.DebugRef:
+			default:
+				return false // includes phis
+			}
+		}
+		return true
+	}
+	// candidate inner blocks: reachable from b through pure condition blocks
+	cand := map[*ssa.BasicBlock]bool{}
+	var collect func(x *ssa.BasicBlock)
+	collect = func(x *ssa.BasicBlock) {
+		if x == b || cand[x] || !pure(x) || len(cand) >= 16 {
+			return
+		}
+		cand[x] = true
+		for _, s := range x.Succs {
+			collect(s)
+		}
+	}
+	for _, s := range b.Succs {
+		collect(s)
+	}
+	// an inner block must be entered only from the region
+	for changed := true; changed; {
+		changed = false
+		for x := range cand {
+			for _, p := range x.Preds {
+				if p != b && !cand[p] {
+					delete(cand, x)
+					changed = true
+					break
+				}
+			}
+		}
+	}
+	if len(cand) == 0 {
+		return cr
+	}
+	// topological order (the region is acyclic: no loop heads) and exits
+	seen := map[*ssa.BasicBlock]bool{}
+	exitSeen := map[*ssa.BasicBlock]bool{}
+	var post []*ssa.BasicBlock
+	var dfs func(x *ssa.BasicBlock)
+	dfs = func(x *ssa.BasicBlock) {
+		if !cand[x] {
+			if !exitSeen[x] {
+				exitSeen[x] = true
+				cr.exits = append(cr.exits, x)
+			}
+			return
+		}
+		if seen[x] {
+			return
+		}
+		seen[x] = true
+		for _, s := range x.Succs {
+			dfs(s)
+		}
+		post = append(post, x)
+	}
+	for _, s := range b.Succs {
+		dfs(s)
+	}
+	if len(cr.exits) != 2 || len(post) == 0 {
+		return cr
+	}
+	for i := len(post) - 1; i >= 0; i-- {
+		cr.inner = append(cr.inner, post[i])
+	}
+	cr.ok = true
+	return cr
+}
+
+func (ex *Exec) tryCondMerge(fr *Frame, block *ssa.BasicBlock, in *ssa.If, c *Term) (*ssa.BasicBlock, bool) {
+	if ex.noMerge || ex.spec > 0 {
+		return nil, false
+	}
+	cr := condRegionFor(in)
+	if !cr.ok {
+		return nil, false
+	}
+	st := ex.st
+	incoming := map[*ssa.BasicBlock][]edgeIn{}
+	addEdge := func(from, to *ssa.BasicBlock, g *Term) {
+		if g.Op == OConst && g.C == 0 {
+			return
+		}
+		incoming[to] = append(incoming[to], edgeIn{from, g})
+	}
+	okRun := func() (ok bool) {
+		mark := len(ex.trail)
+		savedFrame, savedDepth := ex.frame, ex.depth
+		ex.spec++
+		ex.specBudget = mergeStepBudget
+		ex.specMarkID = ex.nextID
+		defer func() {
+			ex.spec--
+			if r := recover(); r != nil {
+				_, isAbort := r.(mergeAbort)
+				_, isEnd := r.(PathEnd)
+				if !isAbort && !isEnd {
+					panic(r)
+				}
+				ex.frame, ex.depth = savedFrame, savedDepth
+				ok = false
+			}
+			if len(ex.trail) != mark {
+				// conditions must be side-effect free
+				for i := len(ex.trail) - 1; i >= mark; i-- {
+					u := ex.trail[i]
+					if u.isM {
+						if u.oldE == nil {
+							delete(u.m.m, u.key)
+						} else {
+							u.m.m[u.key] = u.oldE
+						}
+					} else {
+						u.loc.v = u.oldV
+					}
+				}
+				ex.trail = ex.trail[:mark]
+				ok = false
+			}
+			fr.block = block
+		}()
+		addEdge(block, block.Succs[0], c)
+		addEdge(block, block.Succs[1], st.Not(c))
+		for _, x := range cr.inner {
+			ins := incoming[x]
+			if len(ins) == 0 {
+				continue
+			}
+			g := ins[0].guard
+			for _, e := range ins[1:] {
+				g = st.Or(g, e.guard)
+			}
+			fr.block = x
+			for i := 0; i < len(x.Instrs)-1; i++ {
+				ex.exec(fr, x.Instrs[i])
+			}
+			c2 := ex.term(fr, x.Instrs[len(x.Instrs)-1].(*ssa.If).Cond)
+			addEdge(x, x.Succs[0], st.And(g, c2))
+			addEdge(x, x.Succs[1], st.And(g, st.Not(c2)))
+		}
+		return true
+	}()
+	if !okRun {
+		return nil, false
+	}
+	X, Y := cr.exits[0], cr.exits[1]
+	gOf := func(b *ssa.BasicBlock) *Term {
+		g := st.False
+		for _, e := range incoming[b] {
+			g = st.Or(g, e.guard)
+		}
+		return g
+	}
+	gX := gOf(X)
+	var target *ssa.BasicBlock
+	if ex.branch(gX) {
+		target = X
+	} else {
+		target = Y
+	}
+	ins := incoming[target]
+	if len(ins) == 0 {
+		ex.end("infeasible", "condition merge: unreachable exit")
+	}
+	np := numPhis(target)
+	vals := make([]Value, np)
+	for k := 0; k < np; k++ {
+		phi := target.Instrs[k].(*ssa.Phi)
+		var acc Value
+		for i := len(ins) - 1; i >= 0; i-- {
+			v := ex.get(fr, phi.Edges[predIndex(target, ins[i].pred)])
+			if acc == nil {
+				acc = v
+			} else {
+				func() {
+					defer func() {
+						if r := recover(); r != nil {
+							if _, isAbort := r.(mergeAbort); isAbort {
+								ex.unsupported("condition merge: phi values of different shape")
+							}
+							panic(r)
+						}
+					}()
+					acc = ex.mergeValue(ins[i].guard, v, acc)
+				}()
+			}
+		}
+		vals[k] = acc
+	}
+	for k := 0; k < np; k++ {
+		fr.env[target.Instrs[k].(*ssa.Phi)] = vals[k]
+	}
+	return target, true
+}
